@@ -66,7 +66,7 @@ def writer_table(ctx):
     m = ctx.model
     funcs = [f for f in m.all_funcs() if f.name.startswith('as_cmdline')]
     for f in sorted(funcs, key=lambda x: x.qual):
-        ev = Evaluator(f)
+        ev = Evaluator(f, ctx)
         seen = set()
         for (t, conds, il, node, pconds) in ev.emissions():
             txt = template_text(t)
@@ -249,7 +249,7 @@ def run(ctx, ck):
         sa = [s for s in oa.strings if s.startswith('--')][0]
         sb = [s for s in ob.strings if s.startswith('--')][0]
         for f in sorted({r[0] for r in rows if r[1] in (sa, sb)}, key=lambda x: x.qual):
-            ev = Evaluator(f)
+            ev = Evaluator(f, ctx)
             em = ev.emissions()
             paths = {}
             for (t, conds, il, node, pconds) in em:
@@ -270,16 +270,8 @@ def run(ctx, ck):
                                isinstance(kw.value.ops[0], (ast.Gt, ast.GtE, ast.NotEq)):
                                 force.add(kw.arg)
             def infeasible(pc):
-                for t, b in pc:
-                    if isinstance(b, bool) and b is False:
-                        try:
-                            te = ast.parse(t, mode='eval').body
-                        except SyntaxError:
-                            continue
-                        if isinstance(te, ast.BoolOp) and isinstance(te.op, ast.Or) and \
-                           any(isinstance(v, ast.Name) and v.id in force for v in te.values):
-                            return True
-                return False
+                # path conditions are atoms: `a or explicit` being false gives (explicit, False)
+                return any(isinstance(b, bool) and b is False and t in force for t, b in pc)
             if force:
                 paths = {pc: ss for pc, ss in paths.items() if not infeasible(pc)}
             bad = [pc for pc, ss in paths.items() if len(ss) == 1]
